@@ -194,3 +194,150 @@ func verifHarness_Z4_DstIndependence() {
 	}
 	verifAssert(same, "and produces the same tape and string table")
 }
+
+// Z5 + T7: larger corrupt payloads than Z2's fully symbolic ones, reached from the well-formed side: the tag stream of
+// every well-formed tape of T words with ONE tag byte free, ALL value words free and the number of value words off by
+// -1..+2, through the real Deserialize; on whatever is accepted one family of readers is run (iterator walkers, the
+// Array accessors, the Object accessors), none of which may panic or stop making progress (C19).
+func verifTagStream(pj *ParsedJson) (tags []byte, nvals int) {
+	for i := 0; i < len(pj.Tape); i++ {
+		t := byte(pj.Tape[i] >> 56)
+		tags = append(tags, t)
+		switch Tag(t) {
+		case TagString:
+			nvals += 2
+			i++
+		case TagInteger, TagUint, TagFloat:
+			nvals++
+			i++
+		case TagObjectStart, TagArrayStart, TagRoot:
+			nvals++
+		}
+	}
+	return
+}
+
+func verifArrayReaders(pj *ParsedJson, it *Iter) {
+	arr, err := it.Array(nil)
+	if err != nil {
+		return
+	}
+	c := *arr
+	_, _ = c.AsFloat()
+	c = *arr
+	_, _ = c.AsInteger()
+	c = *arr
+	_, _ = c.AsUint64()
+	c = *arr
+	_, _ = c.AsString()
+	c = *arr
+	_, _ = c.AsStringCvt()
+	c = *arr
+	_ = c.FirstType()
+	c = *arr
+	_, _ = c.Interface()
+	c = *arr
+	_, _ = c.MarshalJSON()
+	c = *arr
+	n := 0
+	c.ForEach(func(i Iter) {
+		n++
+		verifAssert(n <= len(pj.Tape)+2, "Array.ForEach visits no more elements than the tape has entries")
+	})
+	c = *arr
+	ai := c.Iter()
+	ended := false
+	for k := 0; k < len(pj.Tape)+2; k++ {
+		if ai.Advance() == TypeNone {
+			ended = true
+			break
+		}
+	}
+	verifAssert(ended, "Array.Iter().Advance reaches the end within len(tape)+2 steps")
+}
+
+func verifObjectReaders(pj *ParsedJson, it *Iter) {
+	obj, err := it.Object(nil)
+	if err != nil {
+		return
+	}
+	c := *obj
+	var tmp Iter
+	ended := false
+	for k := 0; k < len(pj.Tape)+2; k++ {
+		_, typ, err := c.NextElement(&tmp)
+		if err != nil || typ == TypeNone {
+			ended = true
+			break
+		}
+	}
+	verifAssert(ended, "Object.NextElement reaches the end (or an error) within len(tape)+2 steps")
+	c = *obj
+	ended = false
+	for k := 0; k < len(pj.Tape)+2; k++ {
+		_, typ, err := c.NextElementBytes(&tmp)
+		if err != nil || typ == TypeNone {
+			ended = true
+			break
+		}
+	}
+	verifAssert(ended, "Object.NextElementBytes reaches the end (or an error) within len(tape)+2 steps")
+	c = *obj
+	_ = c.FindKey("k", nil)
+	c = *obj
+	_, _ = c.FindPath(nil, "k", "k")
+	c = *obj
+	n := 0
+	_ = c.ForEach(func(key []byte, i Iter) {
+		n++
+		verifAssert(n <= len(pj.Tape)+2, "Object.ForEach visits no more members than the tape has entries")
+	}, nil)
+	c = *obj
+	_, _ = c.Map(nil)
+	c = *obj
+	_, _ = c.Parse(nil)
+}
+
+func verifHarness_Z5_Deviation() {
+	T := 4 + verifChoice("T", 6)
+	cfg := verifGenCfg{nops: verifChoice("nops", 2) == 1, objects: true, arrays: true, strs: true, nums: true, ones: true, maxDepth: 2,
+		strLen: 1, strLen2: -1, keyLen: 1, maxNop: 1, inMsg: true, numTag: 'l', oneTag: 'n'}
+	wf, _ := verifGenDoc(cfg, T)
+	tags, nv := verifTagStream(wf)
+	at := verifChoice("at", len(tags))
+	tags[at] = nondetU8("tag")
+	nv += verifChoice("dvals", 4) - 1
+	verifAssume(nv >= 0)
+	vals := nondetBytes("vals", 8*nv)
+	msg := nondetBytes("msg", 2)
+	verifAssume(len(tags) < 0x80 && len(vals) < 0x7f)
+	blob := verifFrame(nondetU8("ver"), 0, byte(T), 0, nil, byte(len(msg)), 0, msg, byte(len(tags)), 0, tags, byte(len(vals)), 0, vals)
+	s := NewSerializer()
+	res, err := s.Deserialize(blob, nil)
+	verifReach("Z5.returned")
+	if err != nil {
+		return
+	}
+	verifAssert(res != nil, "Deserialize returns a result or an error")
+	verifReach("Z5.accepted")
+	api := verifChoice("api", 3)
+	switch api {
+	case 0:
+		verifTraverseAll(res)
+	case 1, 2:
+		// every container the walk reaches, whatever encloses it
+		it := res.Iter()
+		for k := 0; k < len(res.Tape)+2; k++ {
+			tag := it.AdvanceInto()
+			if tag == TagEnd {
+				break
+			}
+			if tag == TagArrayStart && api == 1 {
+				verifArrayReaders(res, &it)
+			}
+			if tag == TagObjectStart && api == 2 {
+				verifObjectReaders(res, &it)
+			}
+		}
+	}
+}
